@@ -408,7 +408,7 @@ func describeHistory(as []C12Action) string {
 
 func init() {
 	defProp("C12",
-		"rapid-generated histories of 3-9 steps on one engine object (Clipper64, ClipperD with precision 2/0/1/-1, ClipperOffset): AddPaths (subject / clip / open subject; join and end types for offset groups) and Execute / ExecuteOC / ExecutePolyTree / Execute64 with any clip type, fill rule, delta, and a solution argument that is fresh, pre-filled with junk, the previous solution, a slice with spare capacity, or a slice sharing the point buffers of the paths just added (a junk child in the tree); after every execute the observable result (bool, closed paths, open paths, tree shape and polygons, scale) must be deeply equal to that of a fresh engine given exactly the same AddPaths calls; caller-owned path slices are compared with deep copies afterwards; plus single API calls of the C03 grammar whose inputs must stay unmodified; non-trivial = >= 2 executes with different parameters or a dirty solution argument",
+		"rapid-generated histories of 3-9 steps on one engine object (Clipper64, ClipperD with precision 2/0/1/-1, ClipperOffset): AddPaths (subject / clip / open subject; join and end types for offset groups) and Execute / ExecuteOC / ExecutePolyTree / Execute64 with any clip type (one in seven executes NoClip or a value outside the enum), fill rule, delta, and a solution argument that is fresh, pre-filled with junk, the previous solution, a slice with spare capacity, or a slice sharing the point buffers of the paths just added (a junk child in the tree; the reference execution of the fresh engine gets clean arguments); after every execute the observable result (bool, closed paths, open paths, tree shape and polygons, scale) must be deeply equal to that of a fresh engine given exactly the same AddPaths calls; caller-owned path slices are compared with deep copies afterwards; plus single API calls of the C03 grammar whose inputs must stay unmodified; non-trivial = >= 2 executes with different parameters or a dirty solution argument",
 		[]string{"'another order' of AddPaths is covered at region level by C17 (path permutation); here the fresh engine replays the same AddPaths calls so that deep equality is the right oracle"},
 		drawC12, judgeC12)
 }
